@@ -16,6 +16,7 @@ RULE = ("each local grid family (Trapezoidal boundary on/off, Simpson, Clenshaw-
         "trapezoid family boundary-off = boundary-on minus exactly the points on the global boundary. distinct = digest(family, "
         "levels, box); non-trivial = sub-box != domain or anisotropic level vector")
 RULE += (" " + 'The grid object carries a history of 0..3 earlier setCurrentArea/get_points_and_weights calls on other boxes (incl. boxes glued to the global boundary), as the strategies reuse one object.')
+RULE += (" In a third of the cases a sibling grid object of the same family with the opposite boundary flag / another order is used first on the same boxes (class-level state must not leak between objects).")
 RULE += (" Trapezoidal grids are also run with per-dimension boundary flags (set_boundaries) on a grid object that is used twice.")
 REQUIRED = ["count_matches", "points_inside", "weight_sum_is_volume", "polynomial_exactness", "trapezoid_boundary_off_consistent"]
 MIN_NONTRIVIAL = {"quick": 800, "thorough": 10000}
@@ -123,6 +124,37 @@ def run_case(case, res):
             pass   # a failing history step is judged when it is the observed call of another case
         res.count("history_steps")
     cfg["history"] = nprev
+    # other grid objects of the same family live in the same process (the strategies and the user create several): a sibling with
+    # the opposite boundary flag / another order is used first on the same box and level (its own results are not judged here)
+    if rng.random() < 0.35:
+        import sparseSpACE.Grid as G
+        sib = None
+        try:
+            aa, bb = np.array(a), np.array(b)
+            if family in ("Trapezoidal", "TrapezoidalNB"):
+                sib = G.TrapezoidalGrid(aa, bb, boundary=(family == "TrapezoidalNB"))
+            elif family == "Simpson":
+                sib = G.SimpsonGrid(aa, bb, boundary=False)
+            elif family == "ClenshawCurtis":
+                sib = G.ClenshawCurtisGrid(aa, bb, boundary=False)
+            elif family == "Leja":
+                sib = G.LejaGrid(aa, bb, boundary=False)
+            elif family == "GaussLegendre":
+                sib = G.GaussLegendreGrid(aa + 0.5 * (bb - aa), bb)
+            elif family == "Lagrange":
+                sib = G.LagrangeGrid(aa, bb, boundary=True, p=rng.choice([q for q in (1, 2, 3, 4) if q != p]))
+            else:
+                sib = G.BSplineGrid(aa, bb, boundary=True, p=rng.choice([q for q in (1, 3, 5) if q != p]))
+            for (bs, be) in ((a, b), (s, e)):
+                try:
+                    sib.setCurrentArea(np.array(bs), np.array(be), [max(1, x) for x in lv] if rng.random() < 0.3 else list(lv))
+                    sib.get_points_and_weights()
+                except Exception:
+                    pass
+            res.count("sibling_objects_used_first")
+            cfg["sibling_first"] = True
+        except Exception:
+            pass
     grid.setCurrentArea(np.array(s), np.array(e), lv)
     pts, w = grid.get_points_and_weights()
     pts = [tuple(float(x) for x in q) for q in pts]
